@@ -148,8 +148,9 @@ struct channel_minus_scalar_t
     /// \param scalar - subtrahend operand of the subtraction.
     auto operator()(ChannelRef channel, Scalar const& scalar) const -> ChannelResult
     {
-        // TODO: Conversion after subtraction vs conversion of operands in channel_minus_t?
-        return ChannelResult(channel - scalar);
+        // the operands are converted first, as in channel_minus_t and the other scalar functors: the difference of
+        // an unsigned 32-bit channel and a larger scalar wrapped before it reached a wider or floating-point result
+        return ChannelResult(channel) - ChannelResult(scalar);
     }
 };
 
